@@ -10,6 +10,7 @@ mod sc_cov;
 mod race;
 mod sc_proj;
 mod sc_zoc;
+mod sc_extra;
 
 use std::io::BufRead;
 use util::*;
@@ -54,6 +55,7 @@ fn main() {
         "C18" => sc_zoc::record_c18(&mut rng, count, &mut out),
         "C10" => sc_ring::record_c10(&mut rng, count, &mut out),
         "C11" => sc_ring::record_c11(&mut rng, count, &mut out),
+        "EXTRA" => sc_extra::record_extra(&mut rng, count, &mut out),
         s => { eprintln!("unknown record scenario {}", s); std::process::exit(2); }
       }
       out.flush();
